@@ -3,6 +3,7 @@ From Coq Require Import List Bool NArith.
 Import ListNotations.
 From JS Require Import Model.Base Model.Shape Model.Sem Model.Subset Model.Infer Model.Api
   Proofs.SubsetSound Proofs.SourcesSound.
+From JS Require Import Model.Lexer Model.Walk Model.TextApi Model.JsonRef Proofs.TextComplete Proofs.TextLift.
 
 Theorem C02_subset_sound : forall a b, wf b = true -> is_subset a b = true ->
   forall d, mem d a = true -> mem d b = true.
@@ -27,6 +28,17 @@ Definition kf1_doc : json := JArr [JObj [([97%N], JNum)]; JObj [([97%N], JStr)]]
 Theorem C02_kf1_refuted : exists s d, wf s = true /\ is_superset_tree s d = true /\ mem d s = false.
 Proof. exists (SArray (SObject [([97%N], SNumber false)] false) false), kf1_doc. vm_compute. repeat split. Qed.
 Print Assumptions C02_kf1_refuted.
+
+(* the superset queries on TEXTS (is_superset / is_superset_checked of lib.rs) *)
+Theorem C02_text_superset_sound : forall sh s d, text_of s d -> wf sh = true ->
+  is_superset_m cfg_now sh s = Ok true -> conflict_free d = true -> mem d sh = true.
+Proof. exact text_superset_sound. Qed.
+Print Assumptions C02_text_superset_sound.
+
+Theorem C02_text_superset_checked_sound : forall sh s d, text_of s d -> wf sh = true ->
+  is_superset_checked_m cfg_now sh s = Ok true -> conflict_free d = true -> mem d sh = true.
+Proof. exact text_superset_checked_sound. Qed.
+Print Assumptions C02_text_superset_checked_sound.
 
 Example C02_nonvacuous :
   let a := STuple [SNumber false; SObject [([97%N], SString false)] false] false in
